@@ -524,13 +524,13 @@ def register_in_mps_quantizers(mod: fx.GraphModule):
     for n in mod.graph.nodes:
         if is_inherited_layer(n, mod, (MPSModule,)):
             sub_mod = cast(MPSModule, mod.get_submodule(str(n.target)))
-            prev_n = n.meta['input_features_set_by']
+            # the tensor consumed by `n` was quantized by the nearest searchable producer
+            prev_n = n.all_input_nodes[0]
+            while prev_n.op != 'placeholder' and \
+                    not is_inherited_layer(prev_n, mod, (MPSModule,)):
+                prev_n = prev_n.all_input_nodes[0]
             if prev_n.op == 'placeholder':
                 continue
-            while not is_inherited_layer(prev_n, mod, (MPSModule,)):
-                prev_n = prev_n.meta['input_features_set_by']
-                if isinstance(prev_n, list):
-                    prev_n = prev_n[0]
             prev_submod = mod.get_submodule(str(prev_n.target))
             sub_mod.in_mps_quantizer = cast(MPSPerLayerQtz, prev_submod.out_mps_quantizer)
 
